@@ -218,6 +218,39 @@ def fs_histories(ctx, r, stats, vios, samples):
                     samples.append({"query": q, "answer": a, "file_changes_before": sum(1 for x in trace if x.get("kind") == "fs")})
 
 
+def table_histories(r):
+    """one history per handler module with several program names: `NAME KEY MEMBER x` for the pairs of its dict tables"""
+    import importlib
+
+    import dippy.cli as CLI
+
+    out = []
+    for m in sorted(set(CLI.KNOWN_HANDLERS.values())):
+        try:
+            mod = importlib.import_module("dippy.cli." + m)
+        except Exception:  # noqa: BLE001
+            continue
+        names = [c for c in getattr(mod, "COMMANDS", []) if isinstance(c, str)]
+        if len(names) < 2:
+            continue
+        pairs = set()
+        for v in vars(mod).values():
+            if isinstance(v, dict):
+                for a, b in v.items():
+                    if isinstance(a, str) and isinstance(b, (set, frozenset, list, tuple)):
+                        pairs.update((a, x) for x in b if isinstance(x, str))
+        if not pairs:
+            continue
+        cmds = ["%s %s %s x" % (nme, a, b) for nme in names for a, b in sorted(pairs)]
+        qs = [{"kind": "analyze", "cmd": c, "config": "", "cwd": "/tmp/probe", "reuse": True} for c in cmds]
+        first = list(qs)
+        second = list(qs)
+        r.shuffle(first)
+        r.shuffle(second)
+        out.append(first + second)
+    return out
+
+
 def search(ctx):
     r = rng("c18-search")
     stats = collections.Counter()
@@ -278,6 +311,15 @@ def search(ctx):
             qs = [{"kind": "analyze", "cmd": r.pick(rel_cmds), "config": CONFIGS[3], "cwd": r.pick([home, os.path.join(home, "sub"), "/tmp/probe"]), "reuse": True} for _ in range(25)]
             hists.append((None, qs))
 
+        # directed: handler modules that serve several program names (docker/podman, npm/yarn/pnpm, pip/pip3 …) share their
+        # module-level tables between those names: every (action, subcommand) pair of the tables under every name, twice over
+        # in different orders, so that each query also comes after all the others
+        prio = set()
+        for qs in table_histories(r):
+            hists.append((None, qs))
+            prio.update(json.dumps(q, sort_keys=True) for q in qs)
+        stats["table_history_queries"] = len(prio)
+
         def run_hist(hq):
             mode, qs = hq
             env = {mode: "1"} if mode else {}
@@ -294,7 +336,8 @@ def search(ctx):
         keys = sorted(fresh_keys, key=lambda kq: (str(kq[0]), kq[1]))
         budget = ctx.scale(500, 12000) * (2 if ctx.broken else 1)
         if len(keys) > budget:
-            keys = r.sample(keys, budget)
+            rest = [kq for kq in keys if kq[1] not in prio]
+            keys = [kq for kq in keys if kq[1] in prio] + r.sample(rest, min(budget, len(rest)))
 
         def run_fresh(kq):
             mode, qj = kq
